@@ -410,6 +410,22 @@ func c10ZonedClient(r *ev.Result, fdir string) int {
 			c10Judge(r, c10Case{Position: rq.pos, Text: z}, w.Drain(), "["+z+"]", rq.marker)
 			n++
 		}
+		/* net/http's own notices about a connection (the server's error
+		log ends up on the operator's terminal too): plaintext spoken to
+		the TLS port, and a handshake that is abandoned. */
+		for _, probe := range []string{"GET / HTTP/1.0\r\n\r\n", "\x16\x03\x01\x00\x05hello"} {
+			pc, err := net.DialTimeout("tcp", addr, hworld.Watchdog)
+			if nil != err {
+				break
+			}
+			pc.Write([]byte(probe))
+			ns, ok := w.WaitNotice(func(cl opshell.CLine) bool { return strings.Contains(cl.Line, "TLS handshake error") })
+			pc.Close()
+			if ok {
+				c10Judge(r, c10Case{Position: "client-address/server-error", Text: z}, ns, "["+z+"]", "TLS handshake error")
+				n++
+			}
+		}
 		/* and through the broker: an attach and its closure */
 		if c, err := hworld.DialAddr(addr, ""); nil == err {
 			c.Send(hworld.Get("/i/zoned", "h"))
